@@ -7,7 +7,10 @@ package ingest
 // props/C07.py (after `b.queueDepth.Add(-1)` and after `task.cancel()`); they only count and let the
 // harness park the worker before it starts a task (queue saturation).
 
-import "sync/atomic"
+import (
+	"sync/atomic"
+	"time"
+)
 
 var (
 	verifC07TakenN atomic.Int64
@@ -26,7 +29,20 @@ func (b *ArrowBuffer) verifC07Taken() {
 	}
 }
 
-func (b *ArrowBuffer) verifC07Done() { verifC07DoneN.Add(1) }
+// VerifC07OnDone, when set, is called when the worker finished a task, with the flush-failure flag as it is
+// at that moment (lets the harness tell "failed and flagged" from "failed and not flagged").
+var VerifC07OnDone func(flag bool)
+
+func (b *ArrowBuffer) verifC07Done() {
+	if h := VerifC07OnDone; h != nil {
+		h(b.hasFlushFailure.Load())
+	}
+	verifC07DoneN.Add(1)
+}
+
+// VerifC07SetFlushTimeout overrides ingest.flush_timeout_seconds (whole seconds in the config) with a
+// finer value, so that a stalled storage write reaches its deadline in milliseconds.
+func (b *ArrowBuffer) VerifC07SetFlushTimeout(d time.Duration) { b.flushTimeout = d }
 
 // VerifC07Counters: tasks taken / finished by flush workers since process start.
 func VerifC07Counters() (taken, done int64) { return verifC07TakenN.Load(), verifC07DoneN.Load() }
